@@ -302,7 +302,7 @@ def exclusive_with(ctx: Ctx, pid: str):
         if m and loops(e):
             acc = (ex, e, m)
     if acc is None:
-        raise AnalysisError(rule, fn.site, "common-prefix accumulation loop not found")
+        raise AnalysisError(rule, fn.site, "common-prefix accumulation loop not found", missing="common-prefix accumulation loop not found")
     ex_a, e_a, m_a = acc
     (b,), it = loops(e_a)[0]
     ok_zip = it == pat("zip(self.path, other.path)") or pmatch("zip(self.path, Q_o.path)", it) == {"o": other}
@@ -556,7 +556,7 @@ def cg_self_pair(ctx: Ctx, pid: str):
     impl = _implicit_loop_inserts(fn, cgr)
     rel = [x for x in _edge_inserts(fn, cgr) if x not in impl and len(loops(x[1])) == 3]
     if not impl or not rel:
-        raise AnalysisError(rule, fn.site, "conflict edge sites not found")
+        raise AnalysisError(rule, fn.site, "conflict edge sites not found", missing="conflict edge sites not found")
     ex, e, x, y = impl[0]
     (b1,), _ = loops(e)[1]
     (b2,), _ = loops(e)[2]
